@@ -206,6 +206,7 @@ class GenCfg:
     const_factor_prob: float = 0.0
     mixing_prob: float = 0.25
     leaf_sum_prob: float = 0.3
+    twohead_prob: float = 0.12  # two sum layers over the same product layers
     skip_sum_prob: float = 0.2
     defect: str = "none"  # none | nonsmooth | nondecomp
     weight_kinds: tuple | None = None
@@ -395,7 +396,16 @@ class CircuitBuilder:
         if self.align is None and len(prods) == 1 and prod_units == k and rng.random() < cfg.skip_sum_prob:
             return prods[0]
         w = self._weight((k, len(prods) * prod_units), len(prods), prod_units)
-        return self._add(L.SumLayer(prod_units, k, arity=len(prods), weight=w), prods)
+        head = self._add(L.SumLayer(prod_units, k, arity=len(prods), weight=w), prods)
+        if self.align is None and cfg.twohead_prob and rng.random() < cfg.twohead_prob:
+            # a second head over the very same product layers (each product now has two consumers),
+            # both heads mixed by a sum of arity 2: still smooth and decomposable
+            w2 = self._weight((k, len(prods) * prod_units), len(prods), prod_units)
+            head2 = self._add(L.SumLayer(prod_units, k, arity=len(prods), weight=w2), prods)
+            self.notes.append("two-heads")
+            wm = self._weight((k, 2 * k), 2, k)
+            return self._add(L.SumLayer(k, k, arity=2, weight=wm), [head, head2])
+        return head
 
     def finish(self, outputs):
         return Circuit(self.layers, self.in_layers, outputs)
